@@ -224,7 +224,11 @@ def check(run):
             if p and len(p) == 1 and p[0].startswith("l:"):
                 all_adds.append((p[0], counted(n_["rhs"]), n_))
     total_var = {}
-    for var, cont in want.items():
+    if not all_adds:
+        # totals kept some other way (a struct with its own operator+=, std::accumulate, ...): not understood, no verdict
+        run.ob("R18.4", "cdns_itemcount:totals", None, ic, ic["line"],
+               "no `total += <size of an item container>` statement found: the way the totals are accumulated is not understood")
+    for var, cont in (want.items() if all_adds else []):
         getter = getter_of[cont]
         mine = [a for a in all_adds if a[1] == cont]
         adds = [a[2] for a in mine]
@@ -273,7 +277,7 @@ def check(run):
             if lab in txt and name != name_:
                 labels_ok = False
                 bad.append((line, lab, name))
-    run.ob("R18.4", "cdns_itemcount:labels-match-values", labels_ok and len(prints) >= 12, ic, bad[0][0] if bad else ic["line"],
+    run.ob("R18.4", "cdns_itemcount:labels-match-values", (labels_ok and len(prints) >= 12) if (all_adds and prints) or bad else None, ic, bad[0][0] if bad else ic["line"],
            "every printed line shows the counter it is labelled with (%d print sites)" % len(prints) if labels_ok else
            "line labelled '%s' prints %s" % (bad[0][1], bad[0][2]))
     # plain (non-pretty) output order: qr, aec, mm
